@@ -262,6 +262,9 @@ pub fn run(ctx: &mut Ctx) {
         ("empty", "".into()),
         ("garbage", "[[rule\nthis is not toml".into()),
         ("literal", "[[rule]]\ncidr = '192.168.1.0/24'\nclient_random_prefix = 'AB'\naction = 'allow'\n[[rule]]\naction = \"deny\"\n".into()),
+        // a field given as the empty string is a given field: an empty CIDR matches nobody, an empty prefix still asks for a random
+        ("empty_cidr", "[[rule]]\ncidr = \"\"\naction = \"allow\"\n\n[[rule]]\ncidr = \"10.0.0.0/8\"\naction = \"deny\"\n".into()),
+        ("empty_prefix", "[[rule]]\ncidr = \"192.168.0.0/16\"\nclient_random_prefix = \"\"\naction = \"deny\"\n\n[[rule]]\nclient_random_prefix = \"\"\naction = \"allow\"\n\n[[rule]]\naction = \"deny\"\n".into()),
     ];
     for (name, content) in &files {
         let path = dir.join(format!("{}.toml", name));
@@ -379,6 +382,8 @@ fn expected_rules(name: &str) -> Vec<Rule> {
         "empty" => vec![],
         "garbage" => vec![],
         "literal" => vec![r(Some("192.168.1.0/24"), Some("AB"), RuleAction::Allow), r(None, None, RuleAction::Deny)],
+        "empty_cidr" => vec![r(Some(""), None, RuleAction::Allow), r(Some("10.0.0.0/8"), None, RuleAction::Deny)],
+        "empty_prefix" => vec![r(Some("192.168.0.0/16"), Some(""), RuleAction::Deny), r(None, Some(""), RuleAction::Allow), r(None, None, RuleAction::Deny)],
         _ => vec![],
     }
 }
